@@ -31,7 +31,8 @@ ASSUMPTIONS = ["clause (e) is decided only for bindings the reference binder res
 BUDGET = {"quick": (500, 200), "thorough": (30000, 900)}
 EXHAUSTIVE = {}
 CASE_TIMEOUT = 600
-REQUIRE = {"queries": 1500, "invariance_checked": 800, "rename_agreement_checked": 800, "binder_two_sided_checked": 200}
+REQUIRE = {"queries": 1500, "invariance_checked": 800, "rename_agreement_checked": 800, "binder_two_sided_checked": 200,
+           "keyword_queries_resolved": 100}
 TECHNIQUE = ("observed occurrence sets checked against the tokenizer, against each other (query invariance), "
              "against the rename change set, and two-sided against a symtable-based reference binder")
 LEVEL_TEXT = ("Each occurrence query is executed on the real code; the reported set is validated token by token "
@@ -113,7 +114,7 @@ def run_case(spec):
         unique = bool(spec.get("unique"))
         ukey = "unique-names" if spec.get("unique") == 1 else "unique-names+class-attribute-spelled-like-global"
         case.files, case.gen = pygen.generate(spec["pseed"], "binding", p_fstring=0.05, p_star_import=0.03, p_kwonly=0.1,
-                                              p_varargs=0.1, p_kwargs=0.15, p_kw_like_var=0.6, p_dunder_call=0.3,
+                                              p_varargs=0.1, p_kwargs=0.15, p_kw_like_var=0.6, p_dunder_call=0.3, p_class_comp=0.4, p_multi_global=0.5,
                                               unique_names=int(spec.get("unique") or 0))
         os.makedirs(case.root)
         pyrun.write_project(case.root, case.files)
@@ -301,6 +302,15 @@ def run_case(spec):
                 if not S and offset in kwarg_offsets and _kwarg_has_no_parameter(files, text, offset, old, kwarg_line_col(offset)):
                     res.outcome("keyword-collected-by-**kwargs-has-no-binding")
                     continue
+                if not S and offset in kwarg_offsets:
+                    # an empty answer for a keyword-argument name: rope could not infer the callee (type
+                    # inference, not scoping); the binding is not "statically determined" for rope -- counted,
+                    # not judged (a keyword that IS resolved goes through every clause)
+                    res.outcome("keyword-of-a-callee-rope-cannot-infer")
+                    res.ev("keyword_queries_unresolved")
+                    continue
+                if offset in kwarg_offsets:
+                    res.ev("keyword_queries_resolved")
                 if not any(p == path and s <= offset < e for p, s, e in S):
                     viol("query-token-missing", "the occurrence used to ask is not in the answer", answer=S[:10])
                     continue
